@@ -633,7 +633,8 @@ class ImportanceNestedSampler(BaseNestedSampler):
         elif self.iid_samples is not None:
             return self.iid_samples.samples
         else:
-            return None
+            # No independent samples: the training samples are the results
+            return self.training_samples.samples
 
     @property
     def final_samples(self) -> np.ndarray:
@@ -646,7 +647,8 @@ class ImportanceNestedSampler(BaseNestedSampler):
         elif self.iid_samples is not None:
             return self.iid_samples.state
         else:
-            return None
+            # No independent samples: the training samples are the results
+            return self.training_samples.state
 
     @property
     def reached_tolerance(self) -> bool:
